@@ -27,17 +27,18 @@ type TierSpec struct {
 }
 
 type HarnessSpec struct {
-	Pkg        string            `json:"pkg"`
-	Entry      string            `json:"entry"`
-	Quick      TierSpec          `json:"quick"`
-	Thorough   TierSpec          `json:"thorough"`
-	Reach      []string          `json:"reach"`
-	Native     bool              `json:"native_replay"` // counterexamples and witnesses are replayed natively
-	Solver     string            `json:"solver"`
-	Kernels    map[string]string `json:"kernels"`
-	What       string            `json:"what"`
-	NoWitness  bool              `json:"no_witness"`
-	Concurrent bool              `json:"concurrent"`
+	Pkg         string            `json:"pkg"`
+	Entry       string            `json:"entry"`
+	Quick       TierSpec          `json:"quick"`
+	Thorough    TierSpec          `json:"thorough"`
+	Reach       []string          `json:"reach"`
+	Native      bool              `json:"native_replay"` // counterexamples and witnesses are replayed natively
+	Solver      string            `json:"solver"`
+	Kernels     map[string]string `json:"kernels"`
+	What        string            `json:"what"`
+	NoWitness   bool              `json:"no_witness"`
+	Concurrent  bool              `json:"concurrent"`
+	CrossSolver string            `json:"cross_solver"` // thorough tier: re-run with this solver and compare
 }
 
 type PropSpec struct {
@@ -138,6 +139,7 @@ func cmdCheck(args []string) int {
 		sec float64
 	}
 	var results []hres
+	var crossNotes, crossBad []string
 	for _, h := range spec.Harnesses {
 		if *only != "" && h.Entry != *only {
 			continue
@@ -174,10 +176,25 @@ func cmdCheck(args []string) int {
 		fmt.Printf("[%s %s] paths=%d infeasible=%d decisions=%d steps=%d asserts=%d(smt %d) violations=%d inconclusive=%d %.1fs\n",
 			id, h.Entry, ex.Paths, ex.Infeasible, ex.Decisions, ex.Steps, ex.Asserts, ex.AssertsSMT, len(ex.Violations), len(ex.Inconclusive), sec)
 		results = append(results, hres{h, ts, ex, sec})
+		if *tier == "thorough" && h.CrossSolver != "" && h.CrossSolver != solver {
+			ex2 := &eng.Explorer{P: prog, Entry: fn, Solver: h.CrossSolver, Workers: *workers, Seed: seed,
+				B: eng.Bounds{Preempt: ts.P, Timers: ts.T, MaxSteps: steps, SolverMs: 30000, DeadlineS: ts.Deadline, Params: ts.Bounds}}
+			if err := ex2.Explore(); err != nil {
+				fmt.Printf("INCONCLUSIVE property=%s reason=%v\n", id, err)
+				return 2
+			}
+			same := ex2.Paths == ex.Paths && ex2.Infeasible == ex.Infeasible && len(ex2.Violations) == len(ex.Violations) && len(ex2.Inconclusive) == len(ex.Inconclusive)
+			fmt.Printf("[%s %s] cross-check with %s: paths=%d infeasible=%d violations=%d agree=%v\n", id, h.Entry, h.CrossSolver, ex2.Paths, ex2.Infeasible, len(ex2.Violations), same)
+			crossNotes = append(crossNotes, fmt.Sprintf("%s: %s vs %s paths %d/%d infeasible %d/%d violations %d/%d agree=%v", h.Entry, solver, h.CrossSolver, ex.Paths, ex2.Paths, ex.Infeasible, ex2.Infeasible, len(ex.Violations), len(ex2.Violations), same))
+			if !same {
+				crossBad = append(crossBad, h.Entry+": solvers "+solver+" and "+h.CrossSolver+" disagree on the explored tree")
+			}
+		}
 	}
 
 	exit := 0
 	var inconc []string
+	inconc = append(inconc, crossBad...)
 	nViol := 0
 	validated := 0
 	replayDir := filepath.Join(verifDir(), "evidence", "replays")
@@ -261,7 +278,7 @@ func cmdCheck(args []string) int {
 			"decisions": ex.Decisions, "ssa_instructions": ex.Steps, "assertions": ex.Asserts, "assertions_decided_by_solver": ex.AssertsSMT,
 			"bounds":               map[string]interface{}{"preemptions": r.ts.P, "timer_firings": r.ts.T, "step_budget_per_path": ex.B.MaxSteps, "harness": r.ts.Bounds},
 			"max_preemptions_used": ex.MaxPreempt, "solver": ex.SolverStats, "reach": ex.Reached, "seconds": r.sec,
-			"functions_encoded": ex.FnList(), "models_hit": keys(ex.Models), "exhaustive": !ex.Budget && len(ex.Inconclusive) == 0}
+			"solver_cross_check": crossNotes, "functions_encoded": ex.FnList(), "models_hit": keys(ex.Models), "exhaustive": !ex.Budget && len(ex.Inconclusive) == 0}
 		cov = append(cov, st)
 	}
 	if len(inconc) > 0 && exit == 0 {
